@@ -270,3 +270,81 @@ Theorem C05_source_directory_total : forall vs, len vs < RSQ_MAXN ->
     g_rss256_new (rsq_wdata r) (rsq_pos r) = Val (rs_superblocks (rsq_rs r), rs_samples (rsq_rs r)).
 Proof. exact g_rss_new_total. Qed.
 Print Assumptions C05_source_directory_total.
+
+(* ---- From<QVector> (the directory call, the symbol counts, the prefix sums), Default and the public constructor
+   RSQVector::new (QVector::from_iter then From) REGENERATED (T5, end of Gen/FnsRsq.v): equal to the hand model, value or fault
+   alike, on every well-formed quad vector; and the regenerated public constructor followed by the regenerated queries is
+   the list specification on the stored symbols (v mod 4), with no hand-model function in the statement. *)
+From QwtModel Require Import FnsQvb FnsRsqFromOk FnsWrapRsqOk.
+Theorem C05_source_from_256 : forall q, qv_lines_ok q -> qv_cap_ok q ->
+  g_rsq256_from (pack_qdata (qv_data q)) (qv_position q)
+  = let! r := rsq_from_qv 256 q in
+    Val (rsq_wdata r, rsq_pos r, rs_superblocks (rsq_rs r), rs_samples (rsq_rs r), rsq_occs_smaller r).
+Proof. exact g_rsq256_from_ok. Qed.
+Print Assumptions C05_source_from_256.
+Theorem C05_source_from_512 : forall q, qv_lines_ok q -> qv_cap_ok q ->
+  g_rsq512_from (pack_qdata (qv_data q)) (qv_position q)
+  = let! r := rsq_from_qv 512 q in
+    Val (rsq_wdata r, rsq_pos r, rs_superblocks (rsq_rs r), rs_samples (rsq_rs r), rsq_occs_smaller r).
+Proof. exact g_rsq512_from_ok. Qed.
+Print Assumptions C05_source_from_512.
+Theorem C05_source_default_256 :
+  g_rsq256_default
+  = let! r := rsq_default 256 in
+    Val (rsq_wdata r, rsq_pos r, rs_superblocks (rsq_rs r), rs_samples (rsq_rs r), rsq_occs_smaller r).
+Proof. exact g_rsq256_default_ok. Qed.
+Print Assumptions C05_source_default_256.
+Theorem C05_source_default_512 :
+  g_rsq512_default
+  = let! r := rsq_default 512 in
+    Val (rsq_wdata r, rsq_pos r, rs_superblocks (rsq_rs r), rs_samples (rsq_rs r), rsq_occs_smaller r).
+Proof. exact g_rsq512_default_ok. Qed.
+Print Assumptions C05_source_default_512.
+Theorem C05_source_new_256 : forall wT vs, len vs < RSQ_MAXN ->
+  exists d p sbs samples occs,
+    g_rsq256_new wT vs = Val (d, p, sbs, samples, occs) /\
+    g_rsq256_len p = Val (len vs) /\ g_rsq256_is_empty p = Val (len vs =? 0) /\
+    (forall i, g_rsq256_get d p i = Val (nthN (map sym4 vs) i)) /\
+    (forall i x, nthN (map sym4 vs) i = Some x -> g_rsq256_get_unchecked d p i = Val x) /\
+    (forall c i, g_rsq256_rank d p sbs c i
+       = Val (if (c <=? 3) && (i <=? len vs) then Some (rank_spec (map sym4 vs) c i) else None)) /\
+    (forall c k fuel, k < 2 ^ 64 -> (S (S (N.to_nat (len vs / (8 * 256)))) <= fuel)%nat ->
+       g_rsq256_select fuel d sbs samples occs c k
+       = Val (if c <=? 3 then select_spec (map sym4 vs) c k else None)) /\
+    (forall c i, c <= 3 -> i <= len vs ->
+       g_rsq256_rank_unchecked d sbs c i = Val (rank_spec (map sym4 vs) c i)) /\
+    (forall c k pos fuel, c <= 3 -> select_spec (map sym4 vs) c k = Some pos ->
+       (S (S (N.to_nat (len vs / (8 * 256)))) <= fuel)%nat ->
+       g_rsq256_select_unchecked fuel d sbs samples occs c k = Val pos) /\
+    (forall c i, c <= 3 -> i <= len vs ->
+       exists v, g_rsq256_rank_block_unchecked sbs c i = Val v /\ v <= rank_spec (map sym4 vs) c i) /\
+    (forall c, g_rsq256_occs occs c = Val (if c <=? 3 then Some (countN c (map sym4 vs)) else None)) /\
+    (forall c, g_rsq256_occs_smaller occs c = Val (if c <=? 3 then Some (count_lt c (map sym4 vs)) else None)) /\
+    (forall c, c <= 3 -> g_rsq256_occs_unchecked occs c = Val (countN c (map sym4 vs))) /\
+    (forall c, c <= 3 -> g_rsq256_occs_smaller_unchecked occs c = Val (count_lt c (map sym4 vs))).
+Proof. exact g_rsq256_new_correct. Qed.
+Print Assumptions C05_source_new_256.
+Theorem C05_source_new_512 : forall wT vs, len vs < RSQ_MAXN ->
+  exists d p sbs samples occs,
+    g_rsq512_new wT vs = Val (d, p, sbs, samples, occs) /\
+    g_rsq512_len p = Val (len vs) /\ g_rsq512_is_empty p = Val (len vs =? 0) /\
+    (forall i, g_rsq512_get d p i = Val (nthN (map sym4 vs) i)) /\
+    (forall i x, nthN (map sym4 vs) i = Some x -> g_rsq512_get_unchecked d p i = Val x) /\
+    (forall c i, g_rsq512_rank d p sbs c i
+       = Val (if (c <=? 3) && (i <=? len vs) then Some (rank_spec (map sym4 vs) c i) else None)) /\
+    (forall c k fuel, k < 2 ^ 64 -> (S (S (N.to_nat (len vs / (8 * 512)))) <= fuel)%nat ->
+       g_rsq512_select fuel d sbs samples occs c k
+       = Val (if c <=? 3 then select_spec (map sym4 vs) c k else None)) /\
+    (forall c i, c <= 3 -> i <= len vs ->
+       g_rsq512_rank_unchecked d sbs c i = Val (rank_spec (map sym4 vs) c i)) /\
+    (forall c k pos fuel, c <= 3 -> select_spec (map sym4 vs) c k = Some pos ->
+       (S (S (N.to_nat (len vs / (8 * 512)))) <= fuel)%nat ->
+       g_rsq512_select_unchecked fuel d sbs samples occs c k = Val pos) /\
+    (forall c i, c <= 3 -> i <= len vs ->
+       exists v, g_rsq512_rank_block_unchecked sbs c i = Val v /\ v <= rank_spec (map sym4 vs) c i) /\
+    (forall c, g_rsq512_occs occs c = Val (if c <=? 3 then Some (countN c (map sym4 vs)) else None)) /\
+    (forall c, g_rsq512_occs_smaller occs c = Val (if c <=? 3 then Some (count_lt c (map sym4 vs)) else None)) /\
+    (forall c, c <= 3 -> g_rsq512_occs_unchecked occs c = Val (countN c (map sym4 vs))) /\
+    (forall c, c <= 3 -> g_rsq512_occs_smaller_unchecked occs c = Val (count_lt c (map sym4 vs))).
+Proof. exact g_rsq512_new_correct. Qed.
+Print Assumptions C05_source_new_512.
